@@ -369,7 +369,7 @@ def plain(v):
 
 def run_task(task):
     import torch
-    torch.set_default_dtype(torch.float64)
+    torch.set_default_dtype(torch.float32 if os.environ.get('PYVC_NATIVE_DTYPE') == 'float32' else torch.float64)
     out = dict(ensures=[], observations={}, exception=None, status='ok', missing=[])
     H = HNative(task.get('inputs'))
     try:
